@@ -386,6 +386,10 @@ class TextXVisitor(RRELVisitor):
             self.grammar_parser.dprint("RESOLVING MODEL PARSER: second_pass")
 
         self._resolve_rule_refs(self.grammar_parser, model_parser)
+        if "Comment" in model_parser.metamodel:
+            # A Comment rule which only refers to another rule
+            # (`Comment: LineComment;`) is known only now.
+            model_parser.comments_model = model_parser.metamodel["Comment"]._tx_peg_rule
         self._determine_rule_types(model_parser.metamodel)
         self._resolve_cls_refs(self.grammar_parser, model_parser)
 
